@@ -42,6 +42,7 @@ def structures(tier):
         sts.append({'name': n, 'lookups': 1, 'len': 3})
         if tier == 'thorough' or n in PROBES or sum(n.encode()) % 16 == 0:
             sts.append({'name': n, 'kind': 'lost-end'})
+        sts.append({'name': n, 'lookups': 0, 'pre': True})       # the parser tables in an arbitrary state
         if tier == 'thorough':
             sts.append({'name': n, 'lookups': 0})
             sts.append({'name': n, 'lookups': 1, 'len': 30})
@@ -128,7 +129,10 @@ def run(ctx, st):
         for i in range(st['len']):
             ctx.assume(And(text[i] != 0, text[i] < 0x80, text[i] != 0x22, text[i] != 0x5c))
         lookups = [(text, ctx.int('vnode'))]
-    o1 = sweep.run_window(ctx, name, a, r, lookups)
+    if st.get('pre'):
+        o1 = sweep.with_prestate(ctx, lambda tabs: sweep.run_window(ctx, name, a, r, lookups, tables=tabs))
+    else:
+        o1 = sweep.run_window(ctx, name, a, r, lookups)
     if o1.kind != 'text':
         ctx.reach('outcome:' + o1.kind)
         ctx.reach()
@@ -166,6 +170,9 @@ def run(ctx, st):
                     # a literal that is part of the decoder's fixed text (e.g. a literal 0 for an empty flag list)
                     # cannot be told from a rendered word concretely; the symbolic run only judges rendered words
                     ctx.check('%s/pos%d' % (L, k), ok, 'position %d shows %s for a%d=%#x' % (k, lit, k, a[k]))
+    if st.get('pre'):
+        ctx.reach()
+        return
     # 2-copy: same START and lookups, another END -> identical call part
     o2 = sweep.run_window(ctx, name, a, r2, lookups)
     if o2.kind != 'text':
